@@ -55,10 +55,10 @@ theorem advance_inScope (d d' : C03.DState) (ops : List Op) (h : InScope d) (ha 
       rw [specRun_append, ← hg]
   · cases ha
 
-/-- every protocol line keeps the driver in scope -/
-theorem step_inScope (d : C03.DState) (req : List String) (impl : String) (h : InScope d) :
-    InScope (C03.step d req impl).1 := by
-  unfold C03.step
+/-- every protocol line of waves 1–5 keeps the driver in scope -/
+theorem stepCore_inScope (d : C03.DState) (req : List String) (impl : String) (h : InScope d) :
+    InScope (C03.stepCore d req impl).1 := by
+  unfold C03.stepCore
   split
   · exact ⟨_, [], by simp, rfl, rfl⟩
   · exact ⟨_, [], by simp, rfl, rfl⟩
@@ -81,6 +81,24 @@ theorem step_inScope (d : C03.DState) (req : List String) (impl : String) (h : I
       split
       · rename_i d' ha; exact advance_inScope d d' _ h ha
       · exact h
+
+/-- every protocol line (incl. the `law`, `instances` and `from_elems` lines of wave 6) keeps the driver in scope -/
+theorem step_inScope (d : C03.DState) (req : List String) (impl : String) (h : InScope d) :
+    InScope (C03.step d req impl).1 := by
+  unfold C03.step
+  split
+  · exact h
+  · exact h
+  · split
+    · exact h
+    · split
+      · exact h
+      · split
+        · exact h
+        · split
+          · rename_i d' ha; exact advance_inScope d d' _ h ha
+          · exact h
+  · exact stepCore_inScope d req impl h
 
 /-- what being in scope gives: the hypotheses of the judge / dump / refinement theorems -/
 theorem inScope_facts (d : C03.DState) (h : InScope d) :
